@@ -181,4 +181,304 @@ theorem parseJson_encString (s : List Char) : parseJson (encString s) = some (JV
   rw [this]
   simp [skipWs]
 
+/-! ### indentation -/
+
+theorem drop_len_add {α} : ∀ (pre x : List α) (k : Nat), (pre ++ x).drop (pre.length + k) = x.drop k := by
+  intro pre
+  induction pre with
+  | nil => intro x k; simp
+  | cons a as ih =>
+    intro x k
+    have e : (a :: as).length + k = (as.length + k) + 1 := by simp; omega
+    rw [e, List.cons_append, List.drop_succ_cons, ih]
+
+theorem lastN_replicate (pre : List Char) (m l : Nat) (ch : Char) (h : l ≤ m) :
+    lastN l (pre ++ List.replicate m ch) = List.replicate l ch := by
+  unfold lastN
+  have e : (pre ++ List.replicate m ch).length - l = pre.length + (m - l) := by
+    rw [List.length_append, List.length_replicate]; omega
+  rw [e, drop_len_add, List.drop_replicate]
+  congr 1; omega
+
+theorem indentLoop_spec (ch : Char) : ∀ (f : Nat) (pre : List Char) (m n l : Nat), 1 ≤ l → l ≤ m → n ≤ f →
+    indentLoop f (pre ++ List.replicate m ch) n l = pre ++ List.replicate (m + n) ch := by
+  intro f
+  induction f with
+  | zero => intro pre m n l _ _ hn; have : n = 0 := by omega
+            subst this; simp [indentLoop]
+  | succ f ih =>
+    intro pre m n l h1 h2 hn
+    simp only [indentLoop]
+    by_cases h0 : n = 0
+    · simp [h0]
+    · simp only [h0, if_false]
+      generalize hl' : (if n < l then n else l) = l'
+      have hl1 : 1 ≤ l' := by rw [← hl']; split <;> omega
+      have hl2 : l' ≤ l := by rw [← hl']; split <;> omega
+      have hl3 : l' ≤ n := by rw [← hl']; split <;> omega
+      rw [lastN_replicate pre m l' ch (by omega), List.append_assoc, List.replicate_append_replicate]
+      rw [ih pre (m + l') (n - l') (l' * 2) (by omega) (by omega) (by omega)]
+      congr 2; omega
+
+theorem writeIndentInternal_spec (buf : List Char) (n : Nat) (ch : Char) (L : Nat) (hL : 1 ≤ L) :
+    writeIndentInternal buf n ch L = buf ++ List.replicate n ch := by
+  unfold writeIndentInternal
+  by_cases h : n ≤ L
+  · simp [h]
+  · simp only [h, if_false]
+    rw [indentLoop_spec ch (n - L) buf L (n - L) L hL (Nat.le_refl _) (Nat.le_refl _)]
+    congr 2; omega
+
+/-- `writeIndent` appends a line feed and exactly `depth` spaces (or tabs), whatever the buffer holds -/
+theorem writeIndentBuf_spec (tab : Bool) (buf : List Char) (depth : Nat) :
+    writeIndentBuf tab buf depth = buf ++ '\n' :: List.replicate depth (if tab then '\t' else ' ') := by
+  unfold writeIndentBuf
+  simp only
+  by_cases hd : depth > 0
+  · simp only [hd, if_true]
+    cases tab with
+    | true => simp [writeIndentInternal_spec _ _ _ 16 (by decide)]
+    | false => simp [writeIndentInternal_spec _ _ _ 32 (by decide)]
+  · have : depth = 0 := by omega
+    subst this; simp
+
+theorem nl_eq (depth : Nat) : nl depth = '\n' :: List.replicate depth ' ' := by
+  have := writeIndentBuf_spec false [] depth
+  simpa [nl] using this
+
+/-! ### nested, indented values -/
+
+def nestArr : Nat → JV → JV
+  | 0, v => v
+  | k + 1, v => JV.arr [nestArr k v]
+
+theorem normalize_nestArr (n : Int) : ∀ k, normalize (nestArr k (JV.int n)) = nestArr k (JV.int n) := by
+  intro k
+  induction k with
+  | zero => simp [nestArr, normalize]
+  | succ k ih => simp [nestArr, normalize, normalizeList, ih]
+
+def wsOnly (ws : List Char) : Prop := ∀ c ∈ ws, isWs c = true
+
+theorem skipWs_wsOnly : ∀ (ws rest : List Char), wsOnly ws → skipWs (ws ++ rest) = skipWs rest := by
+  intro ws
+  induction ws with
+  | nil => intro rest _; rfl
+  | cons c cs ih =>
+    intro rest h
+    have hc : isWs c = true := h c (by simp)
+    have := ih rest (fun x hx => h x (by simp [hx]))
+    simp [skipWs, hc, this]
+
+theorem wsOnly_nlOpt (indent depth : Nat) : wsOnly (if indent ≠ 0 then nl depth else []) := by
+  intro c hc
+  by_cases h : indent ≠ 0
+  · rw [if_pos h, nl_eq] at hc
+    simp only [List.mem_cons, List.mem_replicate] at hc
+    rcases hc with h1 | h1
+    · rw [h1]; decide
+    · rw [h1.2]; decide
+  · rw [if_neg h] at hc; simp at hc
+
+/-- what may follow a number: not a digit, `.`, `e`, `E` -/
+def tailOK (tail : List Char) : Prop :=
+  ∀ c, tail.head? = some c → isDigit c = false ∧ c ≠ '.' ∧ c ≠ 'e' ∧ c ≠ 'E'
+
+theorem parseNat_formatBase_tail (k : Nat) (tail : List Char) (ht : tailOK tail) :
+    parseNat (formatBase 10 k ++ tail) = some (k, tail) := by
+  unfold parseNat
+  have hall := formatBase10_all_digits k
+  have htw : (formatBase 10 k ++ tail).takeWhile isDigit = formatBase 10 k
+      ∧ (formatBase 10 k ++ tail).dropWhile isDigit = tail := by
+    have key : ∀ (xs : List Char), (∀ x ∈ xs, isDigit x = true) →
+        (xs ++ tail).takeWhile isDigit = xs ∧ (xs ++ tail).dropWhile isDigit = tail := by
+      intro xs
+      induction xs with
+      | nil =>
+        intro _
+        cases tail with
+        | nil => simp
+        | cons c cs =>
+          have := (ht c rfl).1
+          simp [List.takeWhile, List.dropWhile, this]
+      | cons x xs ih =>
+        intro h
+        have hx : isDigit x = true := h x (by simp)
+        have := ih (fun y hy => h y (by simp [hy]))
+        simp [List.takeWhile, List.dropWhile, hx, this]
+    exact key _ hall
+  rw [htw.1, htw.2]
+  have hne := formatBase_ne_nil 10 k
+  have he : (formatBase 10 k).isEmpty = false := by
+    cases h : formatBase 10 k with
+    | nil => exact absurd h hne
+    | cons _ _ => rfl
+  have hlead : ¬ ((formatBase 10 k).length > 1 ∧ (formatBase 10 k).head? = some '0') := by
+    intro ⟨hl, hh⟩
+    by_cases hk : k = 0
+    · subst hk; rw [formatBase_zero] at hl; simp at hl
+    · exact formatBase_no_leading_zero 10 k (by decide) (by decide) hk hh
+  simp only [he, Bool.false_eq_true, if_false, hlead]
+  have hp := parse_formatGo 10 (by decide) (by decide) _ k (Nat.lt_log2_self)
+  have hp' : parseBaseGo 10 0 (formatBase 10 k) = some k := hp
+  cases tail with
+  | nil => simp [hp']
+  | cons c cs =>
+    obtain ⟨_, h2, h3, h4⟩ := ht c rfl
+    rw [hp']
+    split
+    · rename_i heq; cases heq; exact absurd rfl h2
+    · rename_i heq; cases heq; exact absurd rfl h3
+    · rename_i heq; cases heq; exact absurd rfl h4
+    · rfl
+
+theorem parseValue_int_tail (n : Int) (ws tail : List Char) (hws : wsOnly ws) (ht : tailOK tail) (f : Nat) :
+    parseValue (f + 1) (ws ++ encInt n ++ tail) = some (JV.int n, tail) := by
+  rw [List.append_assoc]
+  simp only [parseValue]
+  rw [skipWs_wsOnly ws _ hws]
+  unfold encInt
+  by_cases hn : n < 0
+  · simp only [hn, if_true, List.cons_append]
+    have hw : isWs '-' = false := by decide
+    rw [skipWs_cons_of_not_ws _ _ hw]
+    have e1 : ('-' : Char) ≠ 'n' := by decide
+    have e2 : ('-' : Char) ≠ 't' := by decide
+    have e3 : ('-' : Char) ≠ 'f' := by decide
+    have e4 : ('-' : Char) ≠ '"' := by decide
+    simp only [e1, e2, e3, e4, if_false, if_true, parseNat_formatBase_tail _ tail ht, Option.map_some]
+    congr 2; congr 1; omega
+  · simp only [hn, if_false]
+    have hne := formatBase_ne_nil 10 n.natAbs
+    cases hfb : formatBase 10 n.natAbs with
+    | nil => exact absurd hfb hne
+    | cons c rest =>
+      have hc : c ∈ formatBase 10 n.natAbs := by rw [hfb]; simp
+      obtain ⟨d, hd, he⟩ := formatBase_digits 10 _ (by decide) c hc
+      obtain ⟨f1, f2, f3, f4, f5, f6, f7⟩ := dec_digit_facts ⟨d, hd⟩
+      simp only at f1 f2 f3 f4 f5 f6 f7
+      rw [← he] at f1 f2 f3 f4 f5 f6 f7
+      simp only [List.cons_append]
+      rw [skipWs_cons_of_not_ws _ _ f2]
+      simp only [f3, f4, f5, f6, f7, f1, if_false, if_true]
+      have : c :: (rest ++ tail) = formatBase 10 n.natAbs ++ tail := by rw [hfb]; rfl
+      rw [this, parseNat_formatBase_tail _ tail ht]
+      simp only [Option.map_some]
+      congr 2; congr 1; omega
+
+/-- first character of an encoded nest of arrays around an integer: `[`, `-` or a digit -/
+theorem encode_nest_head (indent n) : ∀ (k depth : Nat), ∃ c rest,
+    encode indent depth (nestArr k (JV.int n)) = c :: rest ∧ isWs c = false ∧ c ≠ ']' := by
+  intro k depth
+  cases k with
+  | succ k =>
+    have : encode indent depth (nestArr (k + 1) (JV.int n))
+        = '[' :: (encodeElems indent (depth + indent) true [nestArr k (JV.int n)]
+            ++ (if ![nestArr k (JV.int n)].isEmpty ∧ indent ≠ 0 then nl depth else []) ++ [']']) := by
+      simp only [nestArr, encode]
+    exact ⟨'[', _, this, by decide, by decide⟩
+  | zero =>
+    simp only [nestArr, encode, encInt]
+    by_cases hn : n < 0
+    · exact ⟨'-', formatBase 10 n.natAbs, by rw [if_pos hn], by decide, by decide⟩
+    · simp only [hn, if_false]
+      have hne := formatBase_ne_nil 10 n.natAbs
+      cases hfb : formatBase 10 n.natAbs with
+      | nil => exact absurd hfb hne
+      | cons c rest =>
+        have hc : c ∈ formatBase 10 n.natAbs := by rw [hfb]; simp
+        obtain ⟨d, hd, he⟩ := formatBase_digits 10 _ (by decide) c hc
+        have f2 := (dec_digit_facts ⟨d, hd⟩).2.1
+        have f8 : ∀ d : Fin 10, digitChar d.val ≠ ']' := by decide
+        refine ⟨c, rest, rfl, by rw [he]; exact f2, by rw [he]; exact f8 ⟨d, hd⟩⟩
+
+theorem tailOK_nlOpt_close (indent depth : Nat) (tail : List Char) :
+    tailOK ((if indent ≠ 0 then nl depth else []) ++ ']' :: tail) := by
+  intro c hc
+  by_cases h : indent ≠ 0
+  · rw [if_pos h, nl_eq] at hc
+    simp only [List.cons_append, List.head?_cons] at hc
+    cases hc; decide
+  · rw [if_neg h] at hc
+    simp only [List.nil_append, List.head?_cons] at hc
+    cases hc; decide
+
+/-- an integer inside `k` nested arrays, printed with any indent at any depth, followed by anything
+    that cannot continue a number, is read back — fuel `2k+1` suffices -/
+theorem parseValue_nest (indent : Nat) (n : Int) : ∀ (k depth : Nat) (ws tail : List Char) (f : Nat),
+    wsOnly ws → tailOK tail → 2 * k + 1 ≤ f →
+    parseValue f (ws ++ encode indent depth (nestArr k (JV.int n)) ++ tail) = some (nestArr k (JV.int n), tail) := by
+  intro k
+  induction k with
+  | zero =>
+    intro depth ws tail f hws ht hf
+    obtain ⟨g, rfl⟩ : ∃ g, f = g + 1 := ⟨f - 1, by omega⟩
+    simpa [nestArr, encode] using parseValue_int_tail n ws tail hws ht g
+  | succ k ih =>
+    intro depth ws tail f hws ht hf
+    obtain ⟨g, rfl⟩ : ∃ g, f = g + 1 + 1 := ⟨f - 2, by omega⟩
+    have hinner := ih (depth + indent) (if indent ≠ 0 then nl (depth + indent) else [])
+      ((if indent ≠ 0 then nl depth else []) ++ ']' :: tail) g (wsOnly_nlOpt _ _) (tailOK_nlOpt_close _ _ _) (by omega)
+    obtain ⟨c, rest, hhead, hcw, hcb⟩ := encode_nest_head indent n k (depth + indent)
+    -- shape of the text
+    have hshape : encode indent depth (nestArr (k + 1) (JV.int n)) ++ tail
+        = '[' :: ((if indent ≠ 0 then nl (depth + indent) else [])
+            ++ encode indent (depth + indent) (nestArr k (JV.int n))
+            ++ ((if indent ≠ 0 then nl depth else []) ++ ']' :: tail)) := by
+      simp [nestArr, encode, encodeElems]
+    rw [List.append_assoc, hshape]
+    simp only [parseValue]
+    rw [skipWs_wsOnly ws _ hws]
+    have hw : isWs '[' = false := by decide
+    rw [skipWs_cons_of_not_ws _ _ hw]
+    have e1 : ('[' : Char) ≠ 'n' := by decide
+    have e2 : ('[' : Char) ≠ 't' := by decide
+    have e3 : ('[' : Char) ≠ 'f' := by decide
+    have e4 : ('[' : Char) ≠ '"' := by decide
+    have e5 : ('[' : Char) ≠ '-' := by decide
+    have e6 : isDigit '[' = false := by decide
+    simp only [e1, e2, e3, e4, e5, e6, if_false, if_true, Bool.false_eq_true]
+    -- the first element does not start with `]`
+    have hsk : skipWs ((if indent ≠ 0 then nl (depth + indent) else [])
+            ++ encode indent (depth + indent) (nestArr k (JV.int n))
+            ++ ((if indent ≠ 0 then nl depth else []) ++ ']' :: tail))
+        = c :: (rest ++ ((if indent ≠ 0 then nl depth else []) ++ ']' :: tail)) := by
+      rw [List.append_assoc, skipWs_wsOnly _ _ (wsOnly_nlOpt _ _), hhead, List.cons_append,
+        skipWs_cons_of_not_ws _ _ hcw]
+    rw [hsk]
+    split
+    · next r heq =>
+      injection heq with h1 _
+      exact absurd h1 hcb
+    · simp only [parseElems, hinner]
+      rw [skipWs_wsOnly _ _ (wsOnly_nlOpt _ _)]
+      have hw2 : isWs ']' = false := by decide
+      rw [skipWs_cons_of_not_ws _ _ hw2]
+      simp [nestArr]
+
+theorem encode_nest_length (indent n) : ∀ (k depth : Nat),
+    2 * k + 1 ≤ (encode indent depth (nestArr k (JV.int n))).length := by
+  intro k
+  induction k with
+  | zero =>
+    intro depth
+    obtain ⟨c, rest, h, _, _⟩ := encode_nest_head indent n 0 depth
+    rw [h]; simp
+  | succ k ih =>
+    intro depth
+    have := ih (depth + indent)
+    simp only [nestArr, encode, encodeElems, List.length_cons, List.length_append]
+    omega
+
+theorem parseJson_nest (indent : Nat) (n : Int) (k : Nat) :
+    parseJson (encodeJson indent (nestArr k (JV.int n))) = some (nestArr k (JV.int n)) := by
+  unfold parseJson encodeJson
+  rw [normalize_nestArr]
+  have hl := encode_nest_length indent n k 0
+  have := parseValue_nest indent n k 0 [] [] ((encode indent 0 (nestArr k (JV.int n))).length + 1)
+    (by intro c hc; simp at hc) (by intro c hc; simp at hc) (by omega)
+  simp only [List.nil_append, List.append_nil] at this
+  rw [this]
+  simp [skipWs]
+
 end Proofs.C10Json
